@@ -233,9 +233,17 @@ def k2_shapes(tier):
          'script': [('query', 0, 'header_proof', (0, 5)), ('block', cbC), ('query', 0, 'header_proof', (6, 6)),
                     ('reorg', 2, [cbA, cbB, cbC])]},
     ]
+    # a reorg that undoes into the final partial segment of the header cache after a proof extended it
+    # to an unaligned length (needs a segment size > 1: a chain of 8 with reorg limit 2)
+    out.append({'initial': [cbA, cbB, cbC, cbA, cbB, cbC, cbA, cbB], 'deviations': 0, 'early': False, 'reorg_limit': 2,
+                'script': [('query', 0, 'header_proof', (0, 6)), ('reorg', 2, [cbC, cbA, cbB])]})
     if tier == 'thorough':
         for s in list(out):
-            out.append(dict(s, deviations=2, window=12))
+            if s['deviations']:
+                out.append(dict(s, deviations=2, window=12))
+        out.append({'initial': [cbA, cbB, cbC, cbA, cbB, cbC, cbA, cbB, cbC, cbA], 'deviations': 1, 'early': False,
+                    'reorg_limit': 3, 'script': [('query', 0, 'header_proof', (1, 8)), ('reorg', 3, [cbC, cbA, cbB, cbC]),
+                                                 ('query', 0, 'header_proof', (2, 8)), ('reorg', 1, [cbA, cbB])]})
     return out
 
 
